@@ -25,7 +25,7 @@ RULE = ("dict-rich grammar values (dicts of 0..12 str / non-str / mixed keys nes
         "raw), stage 3 the module stub printed by the CLI. Non-trivial: some dict has > k keys, or the union of keys "
         "of merged dicts exceeds k, or a dict nested >= 2 deep; distinct by digest of (values, k).")
 ASSUMPTIONS = ["identifier-like dict keys only (hostile keys break stub syntax: known finding under C12)",
-               "recorded and stubbed with the same k (mixed-configuration histories are outside the quantifier)"]
+               "a limit lowered between recording and stubbing is judged on dicts passed directly (top-level positions) only"]
 
 KS = [0, 1, 2, 3, 10]
 
@@ -140,6 +140,37 @@ class E2E:
             os.environ.update(MTV_DB=prime_db, MTV_K=str(10 if k != 10 else 1))
             with monkeytype.trace(fx_cfg.CONFIG):
                 fx_target.ident({"a": 1, "b": "x"})
+                fx_target.second({"a": 1}, {"b": "x", "c": 1})
+                fx_target.second({"d": 1.5}, {"b": "y"})
+            if k < 10:
+                # the option was lowered (or switched off) after those traces were recorded and the store was kept: a stub
+                # generated NOW obeys the limit in force now. (Only dicts passed directly are judged: the statement speaks of
+                # "every generated TypedDict", and what is generated at stub time are the merged top-level types.)
+                os.environ.update(MTV_DB=prime_db, MTV_K=str(k))
+                out, err = io.StringIO(), io.StringIO()
+                try:
+                    rc = cli.main(["-c", "fx_cfg:CONFIG", "stub", "fx_target"], out, err)
+                    text = out.getvalue()
+                except Exception:
+                    rc, text = 1, ""
+                ctx.label("stub-under-a-lower-limit-than-recorded")
+                if rc == 0 and text.strip():
+                    bad = None
+                    if k == 0 and "TypedDict" in text:
+                        bad = "the stub mentions TypedDict although the limit is 0 now"
+                    elif k > 0:
+                        try:
+                            tree = ast.parse(text)
+                            for c in [n for n in tree.body if isinstance(n, ast.ClassDef) and n.bases]:
+                                nf = sum(isinstance(b, ast.AnnAssign) for b in c.body)
+                                if nf > k:
+                                    bad = f"class {c.name} has {nf} fields, the limit is {k} now"
+                        except SyntaxError:
+                            pass
+                    if bad:
+                        os.unlink(prime_db)
+                        return ctx.fail("C06/stub:typeddict-class-over-limit" if k else "C06/stub:typeddict-with-limit-zero", spec + ["recorded-with-limit-10"],
+                                        f"traces recorded with limit 10, stub generated with limit {k}: {bad}\n{text[:700]}")
             os.unlink(prime_db)
             os.environ.update(MTV_DB=db, MTV_K=str(k))
             with monkeytype.trace(fx_cfg.CONFIG):
